@@ -7,7 +7,7 @@ From Coq Require Import List ZArith Lia Bool Arith.
 From RecordUpdate Require Import RecordUpdate.
 From FV Require Import ListLemmas Kernel World Factory.
 From FV Require FactoryInv FactoryQueue.
-From FV Require StoreB StoreBTok.
+From FV Require StoreB StoreBTok StoreBTokG.
 Import ListNotations.
 
 Definition PTw (w : world) (e t : nat) : Prop := StoreBTok.PT (est (get_edge w e)) t.
@@ -95,6 +95,111 @@ Proof.
     apply (FactoryQueue.store_invariant_everywhere StoreBTok.TokB StoreBTok.tokb_step
              (StoreBTok.init_tokb StoreB.KBuffer StoreB.FIFO 0) nodes edges order n H0 i ed E). }
   destruct (cancel_others_withdraws (combine es ts) w keep HA) as (_ & _ & C & D).
+  { intros e t I. apply R. eapply in_combine_l; eauto. }
+  split; [exact C|exact D].
+Qed.
+
+(* ------------------------------------------------------------------ the retrieval side *)
+Definition GTw (w : world) (e t : nat) : Prop := StoreBTokG.GT (est (get_edge w e)) t.
+Definition AllTokG (w : world) : Prop := Forall (fun ed => StoreBTokG.TokG (est ed)) (wedges w).
+
+Lemma w_succeed_crash w e s : wcrash (w_succeed w e s) = None -> wcrash w = None.
+Proof. unfold w_succeed. destruct (succeed _ _); [auto|]. unfold crashw. destruct (wcrash w) eqn:E; [rewrite E; auto|cbn; discriminate]. Qed.
+Lemma w_succeed_all_crash ts : forall w, wcrash (w_succeed_all w ts) = None -> wcrash w = None.
+Proof. unfold w_succeed_all. induction ts as [|t ts IH]; simpl; auto. intros w H. apply IH in H. eapply w_succeed_crash; eauto. Qed.
+
+Lemma cget_result s t : match snd (fst (StoreB.step s (StoreB.CGet t))) with StoreB.OOk | StoreB.OErr _ => True | _ => False end.
+Proof.
+  cbn [StoreB.step]. unfold StoreB.after_get.
+  destruct (existsb _ _).
+  - destruct (StoreB.trig_get _) as [[? ?]|]; exact I.
+  - destruct (index_where _ _); [|exact I]. destruct (nth_error _ _) as [[? ?]|]; [|exact I].
+    destruct (existsb _ _); [|exact I]. destruct (StoreB.trig_get _) as [[? ?]|]; exact I.
+Qed.
+
+Lemma e_cancel_get_edges w e t :
+  wedges (e_cancel_get w e t) = upd e (fun x => x <| est := StoreB.step_st (est (get_edge w e)) (StoreB.CGet t) |>) (wedges w).
+Proof.
+  unfold e_cancel_get, store_op. destruct (StoreB.step (est (get_edge w e)) (StoreB.CGet t)) as [[s' r] ts] eqn:E.
+  rewrite w_succeed_all_edges, out_err_edges. unfold upd_edge. cbn [wedges set]. simpl.
+  unfold StoreB.step_st. rewrite E. reflexivity.
+Qed.
+Lemma e_cancel_get_crash w e t : wcrash (e_cancel_get w e t) = None -> wcrash w = None.
+Proof.
+  unfold e_cancel_get, store_op. destruct (StoreB.step _ _) as [[s' r] ts]. intros H. apply w_succeed_all_crash in H.
+  assert (forall c, wcrash (crashw (upd_edge w e (fun x => x <| est := s' |>)) c) = None -> wcrash w = None) as K.
+  { intros c. unfold crashw, upd_edge. cbn [wcrash set]. simpl. destruct (wcrash w) eqn:E; cbn [wcrash set]; simpl; [rewrite E|]; auto; discriminate. }
+  unfold out_err in H. destruct r as [| | |er]; try exact H; destruct er; eapply K; exact H.
+Qed.
+
+(* one cancellation: the invariant is kept, no token appears anywhere, and -- unless the run has crashed (a refused
+   cancellation is an unhandled exception) -- the cancelled token is gone from that edge *)
+Lemma e_cancel_get_spec w e t :
+  AllTokG w -> (e < length (wedges w))%nat ->
+  let w' := e_cancel_get w e t in
+  AllTokG w' /\ length (wedges w') = length (wedges w) /\ (wcrash w' = None -> ~ GTw w' e t) /\
+  (forall e' t', ~ GTw w e' t' -> ~ GTw w' e' t').
+Proof.
+  intros H L w'. assert (wedges w' = upd e (fun x => x <| est := StoreB.step_st (est (get_edge w e)) (StoreB.CGet t) |>) (wedges w)) as EW
+    by (apply e_cancel_get_edges).
+  assert (StoreBTokG.TokG (est (get_edge w e))) as TE.
+  { unfold AllTokG in H. eapply Forall_forall in H; [exact H|]. unfold get_edge. apply nth_In. exact L. }
+  split; [|split; [|split]].
+  - unfold AllTokG. rewrite EW. apply upd_forall; auto. intros x _ _. cbn. apply StoreBTokG.tokg_step. exact TE.
+  - rewrite EW. apply upd_len.
+  - intros NC. unfold GTw, get_edge. rewrite EW. rewrite nth_upd_same by exact L. cbn.
+    unfold w', e_cancel_get, store_op in NC.
+    pose proof (cget_result (est (get_edge w e)) t) as CR.
+    unfold StoreB.step_st.
+    destruct (StoreB.step (est (get_edge w e)) (StoreB.CGet t)) as [[s' r] ts] eqn:E. cbn [fst snd] in *.
+    apply w_succeed_all_crash in NC. destruct r as [| | |er]; try contradiction.
+    + eapply StoreBTokG.cget_absent; eauto.
+    + exfalso. unfold out_err in NC. destruct er; unfold crashw, upd_edge in NC; cbn [wcrash set] in NC; simpl in NC;
+        destruct (wcrash w) eqn:EC; cbn [wcrash set] in NC; simpl in NC; try rewrite EC in NC; discriminate.
+  - intros e' t' NP. unfold GTw, get_edge in *. rewrite EW. destruct (Nat.eq_dec e e') as [<-|NE].
+    + rewrite nth_upd_same by exact L. cbn. apply StoreBTokG.gt_not_back; [intros p pr; discriminate|exact NP].
+    + rewrite nth_upd_other by exact NE. exact NP.
+Qed.
+
+Theorem cancel_others_withdraws_get l : forall w keep,
+  AllTokG w -> (forall e t, In (e, t) l -> (e < length (wedges w))%nat) ->
+  let w' := fold_left (fun (w : world) (et : nat * nat) => let '(e, t) := et in
+                         if Nat.eqb t keep then w else e_cancel_get w e t) l w in
+  AllTokG w' /\ length (wedges w') = length (wedges w) /\ (wcrash w' = None -> wcrash w = None) /\
+  (wcrash w' = None -> forall e t, In (e, t) l -> t <> keep -> ~ GTw w' e t) /\
+  (forall e t, ~ GTw w e t -> ~ GTw w' e t).
+Proof.
+  induction l as [|[e t] l IH]; intros w keep H R; simpl.
+  - repeat split; auto; intros _ e t [].
+  - destruct (Nat.eqb_spec t keep) as [EQ|NE].
+    + destruct (IH w keep H (fun e0 t0 I => R e0 t0 (or_intror I))) as (A & B & B' & C & D).
+      repeat split; auto. intros NC e0 t0 [I|I] NK; [inversion I; subst; contradiction|]. apply C; auto.
+    + assert (e < length (wedges w))%nat as L by (apply (R e t); left; reflexivity).
+      destruct (e_cancel_get_spec w e t H L) as (A1 & B1 & C1 & D1).
+      destruct (IH (e_cancel_get w e t) keep A1) as (A & B & B' & C & D).
+      { intros e0 t0 I. rewrite B1. apply (R e0 t0). right. exact I. }
+      repeat split; auto; try lia.
+      * intros NC. apply B' in NC. eapply e_cancel_get_crash; eauto.
+      * intros NC e0 t0 [I|I] NK; [inversion I; subst; apply D; apply C1; apply B'; exact NC|]. apply C; auto.
+Qed.
+
+(* every configuration whose edges start with distinct tokens, every number of kernel steps, every call of the commit
+   helper on the retrieval side: unless the run has crashed, afterwards none of the other tokens is waiting or granted on
+   its edge, and the helper has not put any token anywhere *)
+Theorem commit_withdraws_other_retrieval_requests nodes edges order n :
+  Forall (fun ed => StoreBTokG.TokG (est ed)) edges ->
+  let w := FactoryInv.iter_fstep n (mk_world nodes edges order) in
+  forall es ts keep, (forall e, In e es -> (e < length (wedges w))%nat) ->
+    let w' := cancel_others w es ts keep false in
+    (wcrash w' = None -> forall e t, In (e, t) (combine es ts) -> t <> keep -> ~ GTw w' e t) /\
+    (forall e t, ~ GTw w e t -> ~ GTw w' e t).
+Proof.
+  intros H0 w es ts keep R w'.
+  assert (AllTokG w) as HA.
+  { unfold AllTokG. apply Forall_forall. intros ed I. apply In_nth_error in I. destruct I as (i & E).
+    apply (FactoryQueue.store_invariant_everywhere StoreBTokG.TokG StoreBTokG.tokg_step
+             (StoreBTokG.init_tokg StoreB.KBuffer StoreB.FIFO 0) nodes edges order n H0 i ed E). }
+  destruct (cancel_others_withdraws_get (combine es ts) w keep HA) as (_ & _ & _ & C & D).
   { intros e t I. apply R. eapply in_combine_l; eauto. }
   split; [exact C|exact D].
 Qed.
